@@ -52,3 +52,6 @@ include!("c06.rs");
 include!("c07.rs");
 include!("c19.rs");
 include!("c15.rs");
+include!("c20.rs");
+include!("c14.rs");
+include!("c13.rs");
